@@ -1,0 +1,9 @@
+//go:build !verif
+
+package sql
+
+// No-op instrumentation points. Build with -tags verif to enable (see
+// verif_on.go).
+
+func vTokStep()  {}
+func vScanStep() {}
